@@ -191,6 +191,13 @@ pub fn build(repo: &Path, root: &Path, with_big: bool) -> Tree {
         dirs.push(name.to_string());
         fixtures.push(Fixture { dir: name.to_string(), file: "schema.graphql".into(), is_schema: true, ops: vec![], big: false });
         fixtures.push(Fixture { dir: name.to_string(), file: "query.graphql".into(), is_schema: false, ops: operation_names(query), big: false });
+        // a sibling of exactly the same byte length (and, written in the same instant, practically
+        // the same timestamps) but different content: anything that identifies files by metadata
+        // confuses the two
+        let sibling = if name == "syn_rec" { query.replace("query Op(", "query Oq(") } else { query.replace("query E {", "query F {") };
+        assert_eq!(sibling.len(), query.len());
+        fs::write(d.join("query_b.graphql"), &sibling).unwrap();
+        fixtures.push(Fixture { dir: name.to_string(), file: "query_b.graphql".into(), is_schema: false, ops: operation_names(&sibling), big: false });
     }
     // the same file under different paths
     for d in &dirs {
